@@ -259,6 +259,11 @@ func ToWire(v interface{}) interface{} {
 	case json.Number:
 		return ToWire(FromWire(x))
 	case []interface{}:
+		if x == nil {
+			// a nil slice where a list value is expected: encoding/json renders it as null, not [] — the
+			// library hands resolvers non-nil (possibly empty) lists
+			return map[string]interface{}{"$go": "nilslice"}
+		}
 		out := make([]interface{}, len(x))
 		for i, e := range x {
 			out[i] = ToWire(e)
